@@ -25,7 +25,8 @@ obj = DDLParser.__new__(DDLParser)          # un-initialised instance: only the 
 pinfo = yacc.ParserReflect({k: getattr(obj, k) for k in dir(obj) if not k.startswith("__")}, log=yacc.NullLogger())
 pinfo.get_all()
 sig = pinfo.signature()
-pinfo.validate_all()
+if pinfo.validate_all():                  # ply.yacc.yacc(): `if pinfo.validate_all(): raise YaccError('Unable to build parser')`
+    raise yacc.YaccError("Unable to build parser (the grammar module fails PLY's own validation)")
 g = yacc.Grammar(pinfo.tokens)
 for term, assoc, level in pinfo.preclist:
     g.set_precedence(term, assoc, level)
@@ -69,10 +70,14 @@ print(json.dumps({"action": [[s, t, a] for s, row in lr.action.items() for t, a 
 '''
 
 
+class ScratchRunError(RuntimeError):
+    """a helper script failed on the scratch copy of the working tree (the code under test, not the harness)"""
+
+
 def _run(code, scratch, extra_env=None, cwd=None):
     r = subprocess.run([PY, "-c", code], env=child_env(scratch, extra_env), capture_output=True, text=True, cwd=cwd or scratch, timeout=300)
     if r.returncode != 0:
-        raise RuntimeError(r.stderr[-1500:])
+        raise ScratchRunError(r.stderr[-1500:])
     return json.loads(r.stdout.strip().splitlines()[-1])
 
 
